@@ -1,7 +1,7 @@
 (* Lemmas for the "fixed fields ++ TLV extension" message model (C10). *)
 From Coq Require Import List NArith Bool Lia Arith.
 From Coq Require Import ZifyBool ZifyN ZifyNat.
-From LV Require Import Wire.Model Wire.Proofs Wire.MsgModel.
+From LV Require Import Wire.Model Wire.Proofs Wire.Loose Wire.MsgModel.
 Import ListNotations.
 Local Open Scope N_scope.
 
@@ -173,15 +173,47 @@ Proof.
   induction ks as [|k ks IH]; cbn; [reflexivity|]. destruct (t =? kr_type k); [reflexivity|exact IH].
 Qed.
 
-Lemma tm_kinds_no_bigsize ks :
-  no_bigsize (map (fun k => (kr_type k, rk_vkind (kr_kind k))) ks).
+Lemma value_okb_spec k v : wf_bytes v ->
+  (value_ok (Some (rk_vkind k)) v <-> value_okb (rk_vkind k) v = true).
 Proof.
-  induction ks as [|k ks IH]; cbn; [exact I|]. destruct (kr_kind k); cbn; assumption.
+  intros Hw. destruct k; cbn; try tauto; try (rewrite N.eqb_eq; tauto).
+  (* RKBigSize *)
+  split.
+  - intros (n & Hn & ->). rewrite <- (app_nil_r (bigsize_enc n)).
+    rewrite bigsize_dec_enc by assumption. reflexivity.
+  - destruct (bigsize_dec v) as [[n r]|e] eqn:E; [|discriminate].
+    destruct r; [|discriminate]. intros _. apply bigsize_dec_spec in E; [|assumption].
+    destruct E as (-> & Hn & _). exists n. rewrite app_nil_r. auto.
 Qed.
 
-Lemma value_okb_spec k v : value_ok (Some (rk_vkind k)) v <-> value_okb (rk_vkind k) v = true.
+(* what DecodeP2P returns, for ANY known-record set (BigSize records included: their
+   announced length is not constrained, see Loose.v) *)
+Lemma wf_claimed_inv rs : forall ls,
+  wf_bytes (encode_stream_claimed rs ls) -> length rs = length ls ->
+  Forall (fun r => wf_bytes (snd r)) rs.
 Proof.
-  destruct k; cbn; try tauto; rewrite N.eqb_eq; tauto.
+  induction rs as [|[t v] rs IH]; intros ls H Hlen; [constructor|].
+  destruct ls as [|l ls]; [discriminate|]. cbn [encode_stream_claimed] in H.
+  unfold enc_record_claimed in H. cbn [fst snd] in H.
+  apply wf_app in H. destruct H as [H1 H2]. apply wf_app in H1. destruct H1 as [_ H1].
+  apply wf_app in H1. destruct H1 as [_ Hv]. constructor; [exact Hv|].
+  apply (IH ls); [exact H2|]. cbn [length] in Hlen. lia.
+Qed.
+
+Lemma stream_facts_any K r2 rs :
+  wf_bytes r2 -> decode_stream K true r2 = Ok rs ->
+  sorted_from 0 rs /\ Forall (record_ok K true) rs /\ Forall (fun r => wf_bytes (snd r)) rs.
+Proof.
+  intros Hw H. apply tlv_p2p_accepts_exactly in H; [|assumption].
+  destruct H as (ls & -> & Hs & Hf). split; [assumption|]. split.
+  - clear Hw Hs. induction Hf as [|r l rs ls Hr Hf IH]; constructor; [|assumption].
+    destruct Hr as (Ht & Hl & Hv & Hk). unfold record_ok. cbn [len_bound].
+    split; [assumption|]. split; [|assumption].
+    destruct (lookup_kind K (fst r)) as [[n|n| | |]|] eqn:Ek;
+      try (rewrite <- Hk by discriminate; assumption).
+    cbn [value_ok] in Hv. destruct Hv as (x & _ & ->).
+    pose proof (bigsize_enc_len x). unfold max_record_size. lia.
+  - apply (wf_claimed_inv rs ls Hw). clear Hw Hs. induction Hf; cbn [length]; congruence.
 Qed.
 
 Lemma secp_n_lt : secp_n < 256 ^ N.of_nat 32.
@@ -499,7 +531,7 @@ Section Msg.
     intros (Ht & Hl & Hv) Hw Hc. rewrite K_kind in Hv.
     destruct (lookup_rk ks t) as [k|] eqn:E; cbn [fst snd option_map] in *.
     - rewrite E. destruct (norm_props oc k v Hw Hv) as (Hw' & Hv' & Hl' & Hi & Hc').
-      rewrite Hi, Hc', Hc. rewrite (proj1 (value_okb_spec k _) Hv').
+      rewrite Hi, Hc', Hc. rewrite (proj1 (value_okb_spec k _ Hw') Hv').
       rewrite (proj2 (wf_bytesb_spec _) Hw'), (proj2 (beq_spec _ _) eq_refl).
       assert (H1 : (t <? two64) = true) by (apply N.ltb_lt; assumption).
       assert (H2 : (blen (rk_norm k v) <=? max_record_size) = true).
@@ -523,7 +555,7 @@ Section Msg.
     rewrite K_kind. destruct (lookup_rk ks t) as [k|]; cbn [option_map].
     - apply andb_true_iff in H4. destruct H4 as [H4 H6].
       apply andb_true_iff in H4. destruct H4 as [H4 H5].
-      apply value_okb_spec in H4. apply beq_spec in H6. rewrite H6. repeat split; auto.
+      apply (value_okb_spec _ _ H3) in H4. apply beq_spec in H6. rewrite H6. repeat split; auto.
     - repeat split; auto.
   Qed.
 
@@ -543,13 +575,9 @@ Section Msg.
   (* what the stream decoder returns *)
   Lemma stream_facts r2 rs :
     wf_bytes r2 -> decode_stream K true r2 = Ok rs ->
-    r2 = encode_stream rs /\ sorted_from 0 rs /\ Forall (record_ok K true) rs /\
+    sorted_from 0 rs /\ Forall (record_ok K true) rs /\
     Forall (fun r => wf_bytes (snd r)) rs.
-  Proof.
-    intros Hw H. unfold decode_stream in H.
-    apply (dec_loop_sound K (tm_kinds_no_bigsize ks)) in H; [|assumption].
-    destruct H as (-> & Hs & Hf). repeat split; auto. apply wf_encode_stream_inv. assumption.
-  Qed.
+  Proof. apply stream_facts_any. Qed.
 
   Definition post (rs : list tlv_record) : list tlv_record :=
     ensure_all (always_types ks) (map (rec_norm ks) rs).
@@ -605,7 +633,7 @@ Section Msg.
     destruct (forallb (rec_check oc ks) rs) eqn:E4; [|discriminate].
     cbv zeta. fold (post rs). destruct (excl_ok (tm_excl M) (post rs)) eqn:E5; [|discriminate].
     intros H; inversion H; subst v. clear H.
-    destruct (stream_facts _ _ Hw2 E3) as (_ & Hs & Hf & Hwr).
+    destruct (stream_facts _ _ Hw2 E3) as (Hs & Hf & Hwr).
     destruct (post_valid rs Hs Hf Hwr E4) as (P1 & P2 & P3).
     rewrite dec_rest_is in E1.
     destruct (decode_rest_valid oc _ _ _ _ Hw E1) as (Hv & _).
